@@ -1,5 +1,6 @@
 import GqlProofs.PlanCache
-import GqlProofs.NormalizeCheck
+import GqlProofs.NormalizeLoc
+import Props.C08Bytes
 /-! # C06 — Prepared plans and the plan cache are semantically transparent
 
 Property theorems only.  `M` = `GqlModel.PlanCache` (plan_cache.go function by function), `S` = no cache:
@@ -452,6 +453,87 @@ theorem normalized_not_transparent_without_hdet :
       (getNorm norm buildN buildN (fun _ => false) c1 0 q2 []).2.1.res ≠ buildN 0 q2 [] :=
   ⟨fun _ _ _ => .ok [1] (), fun _ q _ => q, newPlanCache ⟨1, 0, true⟩, [1], [2], by decide +kernel⟩
 
+/-- **normalized_get_faithful** — `normalized_transparent_partial` up to an equivalence `E` of results (reflexive,
+transitive) and with the key assumption as the named predicate `KeyFaithful`: one `Get` keeps every entry `E`-equivalent
+to what its key's request builds, and returns — on a hit or a miss — a result `E`-equivalent to what THIS request
+builds. The LRU logic (eviction, schema guard, move-to-front, in-place update) adds no other way to serve a wrong plan. -/
+theorem normalized_get_faithful (E : R → R → Prop) (hrefl : ∀ r, E r r) (htrans : ∀ a b c, E a b → E b c → E a c)
+    (norm : S → Bytes → Bytes → NormOut A) (errRes buildN : S → Bytes → Bytes → R) (failed : R → Bool)
+    (hkey : KeyFaithful E norm buildN)
+    (c : Cache S R) (s : S) (q op : Bytes) (h : InvE E norm buildN c) :
+    InvE E norm buildN (getNorm norm errRes buildN failed c s q op).1 ∧
+    (((getNorm norm errRes buildN failed c s q op).2.2 = .hit ∨ (getNorm norm errRes buildN failed c s q op).2.2 = .miss) →
+      E (getNorm norm errRes buildN failed c s q op).2.1.res (buildN s q op)) := by
+  unfold getNorm
+  cases hn : norm s q op with
+  | parseErr => exact ⟨h, by simp⟩
+  | normErr => exact ⟨h, by simp⟩
+  | ok nk sy =>
+    simp only []
+    unfold lookup
+    cases hf : findKey (normCacheKey op q nk) c.items with
+    | none =>
+      simp only []
+      refine ⟨?_, fun _ => hrefl _⟩
+      intro x hx
+      unfold store at hx
+      split at hx
+      · rcases List.mem_cons.mp hx with rfl | hx
+        · exact ⟨q, op, nk, sy, hn, rfl, hrefl _⟩
+        · exact h x (mem_removeKey hx)
+      · rcases List.mem_cons.mp (mem_evictLoop hx) with rfl | hx
+        · exact ⟨q, op, nk, sy, hn, rfl, hrefl _⟩
+        · exact h x hx
+    | some e =>
+      obtain ⟨hm, hk⟩ := findKey_some hf
+      simp only []
+      by_cases hs : e.schema = s
+      · simp only [hs, ne_eq, not_true_eq_false, if_false]
+        refine ⟨?_, fun _ => ?_⟩
+        · intro x hx
+          rcases List.mem_cons.mp hx with rfl | hx
+          · exact h _ hm
+          · exact h x (mem_removeKey hx)
+        · obtain ⟨q0, op0, nk0, sy0, hn0, hk0, hr0⟩ := h e hm
+          rw [hs] at hn0 hr0
+          exact htrans _ _ _ hr0 (hkey s q0 op0 q op nk0 sy0 nk sy hn0 hn (by rw [← hk0, hk]))
+      · simp only [ne_eq, hs, not_false_eq_true, if_true]
+        refine ⟨?_, fun _ => hrefl _⟩
+        intro x hx
+        unfold store at hx
+        split at hx
+        · rcases List.mem_cons.mp hx with rfl | hx
+          · exact ⟨q, op, nk, sy, hn, rfl, hrefl _⟩
+          · exact h x (mem_removeKey (mem_removeKey hx))
+        · rcases List.mem_cons.mp (mem_evictLoop hx) with rfl | hx
+          · exact ⟨q, op, nk, sy, hn, rfl, hrefl _⟩
+          · exact h x (mem_removeKey hx)
+
+/-- **normalising_history_faithful** — for every history of `Get`/`Reset` (schema replacement = a `Get` with another
+pointer) over a NORMALISING cache, from any state with faithful entries (e.g. the fresh cache): every `Get` that went
+through the cache, HIT or miss, returned a result `E`-equivalent to what its own request builds — given `KeyFaithful`. -/
+theorem normalising_history_faithful (E : R → R → Prop) (hrefl : ∀ r, E r r) (htrans : ∀ a b c, E a b → E b c → E a c)
+    (norm : S → Bytes → Bytes → NormOut A) (build errRes buildN : S → Bytes → Bytes → R) (failed : R → Bool)
+    (hkey : KeyFaithful E norm buildN) : ∀ (ops : List (Op S)) (c : Cache S R), InvE E norm buildN c →
+      OutsFaithful E buildN ops (runNorm norm build errRes buildN failed c ops).2 := by
+  intro ops
+  induction ops with
+  | nil => intro c _; trivial
+  | cons x xs ih =>
+    intro c h
+    cases x with
+    | reset =>
+      simp only [runNorm, stepNorm, OutsFaithful]
+      exact ih (reset c) (by intro e he; simp [reset] at he)
+    | get s q op =>
+      simp only [runNorm, stepNorm]
+      by_cases hsc : shouldCache c q.length = true
+      · simp only [hsc, Bool.not_true, Bool.false_eq_true, if_false, OutsFaithful]
+        obtain ⟨h1, h2⟩ := normalized_get_faithful E hrefl htrans norm errRes buildN failed hkey c s q op h
+        exact ⟨h2, ih _ h1⟩
+      · simp only [hsc, Bool.not_false, if_true, OutsFaithful]
+        exact ⟨fun hh => (by rcases hh with hh | hh <;> cases hh), ih c h⟩
+
 /-! ## 7. What participates in the structural fingerprint (model of `fingerprintDocument`, after the repairs of D-06b/c/g) -/
 namespace Fp
 
@@ -629,14 +711,16 @@ theorem synthetic_variables_coerce (s : Schema) (vars : List VarDef) (es : List 
       | .ok v => .ok (extendVars s es v) :=
   getVariableValues_normalised s vars es inputs hfresh hnd hok
 
-/-- **executor simulation (piece 2).** Two executions over the same schema, fragments and world, one with variable map
-`vars'` on groups related to the other's by `GRel` (same keys, same field names, argument lists that evaluate alike,
-related sub-selections), give the same result, state, errors and invocation log — for every fuel. -/
-theorem executor_simulation (c : Exec.Ctx) (vars' : Vars) (hf : FragsOK c vars') (fuel : Nat) (dfr : Bool) (rt : String)
+/-- **executor simulation (piece 2).** Two executions over the same schema and world, the second with variable map `vars'`
+and a related fragment table (`FragsRel`), on groups related to the first's by `GRel` (same keys, same field names,
+argument lists that evaluate alike, related sub-selections; source locations may differ), give the same result, state,
+errors and invocation log — for every fuel. -/
+theorem executor_simulation (c : Exec.Ctx) (vars' : Vars) (frags' : List (String × Definition))
+    (hf : FragsRel c vars' frags') (hlen : frags'.length = c.frags.length) (fuel : Nat) (dfr : Bool) (rt : String)
     (src : Exec.GoVal) (path : Exec.Path) (g g' : Exec.Groups) (acc : List (String × JVal)) (st : Exec.St)
     (hg : GRel c vars' rt g g') (hu : HUAll c rt g) :
-    Exec.execGroups (ctx' c vars') fuel dfr rt src path g' acc st = Exec.execGroups c fuel dfr rt src path g acc st :=
-  (sim_all c vars' hf fuel).1 dfr rt src path g g' acc st hg hu
+    Exec.execGroups (ctx' c vars' frags') fuel dfr rt src path g' acc st = Exec.execGroups c fuel dfr rt src path g acc st :=
+  (sim_all c vars' frags' hf hlen fuel).1 dfr rt src path g g' acc st hg hu
 
 /-- **normalized_transparent (end to end).** For every schema, document, operation name, client variables, world and
 fuel: executing the NORMALISED document with (SynthArgs over the client's variables) gives exactly the response —
@@ -682,6 +766,52 @@ theorem normalized_transparent_checked (s : Schema) (hs : schemaOKB s = true) (h
     Exec.execute s doc' opName (synth ++ inputs) w fuel = Exec.execute s doc opName inputs w fuel :=
   normalized_transparent s (customLti_of_check s hc) (schemaOK_of_check s hs) doc doc' opName inputs synth w fuel hnorm hlex
     (execUniform_of_keysFunctional s doc opName inputs w hk)
+
+/-! ## 9. Location independence and the normalising cache, end to end -/
+
+/-- **execute_ignores_locations.** The executor model does not look at source locations: documents with the same
+location-free image give the same response on the same inputs (data, error paths, log, request errors, fuel). Premise
+`ExecUniform` for the first document (the simulation's premise; C02's overlap rule guarantees it). -/
+theorem execute_ignores_locations (s : Schema) (d1 d2 : Document) (opName : String) (inputs : Vars) (w : Exec.World)
+    (fuel : Nat) (h : d1.stripLoc = d2.stripLoc) (hu : ExecUniform s d1 opName inputs w) :
+    Exec.execute s d2 opName inputs w fuel = Exec.execute s d1 opName inputs w fuel :=
+  execute_of_stripEq s d1 d2 opName inputs w fuel h hu
+
+/-- the normalised request inherits `ExecUniform` from the original one -/
+theorem normalised_request_uniform (s : Schema) (hcc : customLti s) (hsch : SchemaOK s) (doc doc' : Document)
+    (opName : String) (inputs synth : Vars) (w : Exec.World)
+    (hnorm : normalizeDocument s doc opName = .ok doc' synth) (hlex : DocLex doc)
+    (hu : ExecUniform s doc opName inputs w) : ExecUniform s doc' opName (synth ++ inputs) w :=
+  execUniform_normalised s hcc hsch doc doc' opName inputs synth w hnorm hlex hu
+
+/-- **printed_key_faithful.** A cache key that is the PRINTED normalised document (what the comments in plan_cache.go
+describe, and what the repair `notes/fixes/D-06k.diff` does) is faithful: well-formed documents with the same printed
+text are equal up to source locations — from C08's `parse_print` on bytes. -/
+theorem printed_key_faithful (d1 d2 : Document) (h1 : Printer.WFDocument d1) (h2 : Printer.WFDocument d2)
+    (h : Printer.print d1 = Printer.print d2) : d1.stripLoc = d2.stripLoc := by
+  obtain ⟨a, ha, hsa⟩ := GqlModel.C08.parse_print d1 h1
+  obtain ⟨b, hb, hsb⟩ := GqlModel.C08.parse_print d2 h2
+  have : GqlModel.RoundTrip.printBytes d1 = GqlModel.RoundTrip.printBytes d2 := by
+    simp only [GqlModel.RoundTrip.printBytes, h]
+  rw [this, hb] at ha
+  simp only [Except.ok.injEq, GqlModel.Parser.Parsed.mk.injEq, and_true] at ha
+  rw [← hsa, ← ha, hsb]
+
+/-- **normalising_hit_transparent.** What a faithful key buys, in terms of the executor model: if the document `res` a
+normalising `Get` hands back (on a HIT: the normalised document of the request that populated the entry) equals this
+request's own normalised document up to source locations, then executing `res` with THIS request's SynthArgs over the
+client's variables gives exactly the response of executing this request's ORIGINAL document with the client's variables.
+Composed from `normalized_transparent` (this request), `normalised_request_uniform` and `execute_ignores_locations`.
+What it does NOT say: positions in error messages — the model's responses carry paths, not source locations; on a hit the
+real library reports the LOCATIONS of the populating variant (known finding D-18e, C18). -/
+theorem normalising_hit_transparent (s : Schema) (hcc : customLti s) (hsch : SchemaOK s)
+    (doc docN res : Document) (opName : String) (inputs synth : Vars) (w : Exec.World) (fuel : Nat)
+    (hnorm : normalizeDocument s doc opName = .ok docN synth) (hres : res.stripLoc = docN.stripLoc)
+    (hlex : DocLex doc) (hu : ExecUniform s doc opName inputs w) :
+    Exec.execute s res opName (synth ++ inputs) w fuel = Exec.execute s doc opName inputs w fuel := by
+  rw [execute_of_stripEq s docN res opName (synth ++ inputs) w fuel hres.symm
+    (execUniform_normalised s hcc hsch doc docN opName inputs synth w hnorm hlex hu)]
+  exact normalized_transparent s hcc hsch doc docN opName inputs synth w fuel hnorm hlex hu
 
 /-! ## non-vacuity -/
 section Examples
